@@ -234,7 +234,7 @@ int main(int argc, char **argv) {
         else if (!strcmp(cmd, "BOUND")) { bound = strtoul(a1, NULL, 10); }
         else if (!strcmp(cmd, "START")) {
             ST = malloc(P->state_size);
-            if (poison >= 0) memset(ST, poison, P->state_size); else memset(ST, 0, P->state_size);
+            if (poison >= 0) { memset(ST, poison, P->state_size); P->prep(ST); } else memset(ST, 0, P->state_size);
             P->sethooks(ST);
             reset_meter();
             int code = -1;
